@@ -41,10 +41,12 @@ def _close(a, b, rtol):
     return And(*[Le(Abs(x - y), ATOL + rtol * Abs(y)) for x, y in zip(a, b)])
 
 
-def s_converged(ctx, shape, maxiter):
+def s_converged(ctx, shape, maxiter, delete=()):
     """(a) what is returned is the iterate whose image passed the real test with the requested tolerances; more
     than maxiter failed tests => RuntimeError; never more than maxiter+1 sweeps."""
     sysobj, info, durations = sysh.build_system(ctx, shape)
+    for nm in delete:  # leaves a hole in the node numbering: the iterate vectors are longer than the number of components
+        sysobj.del_comp(nm)
     vtol, itol = ctx.real("vtol"), ctx.real("itol")
     ctx.assume(And(Gt(vtol, 0.0), Le(vtol, 0.01), Gt(itol, 0.0), Le(itol, 0.01)))
     ctx.nice(vtol, [1e-6, 1e-4])
@@ -237,6 +239,12 @@ def instances(tier):
                 continue
             out.append(Instance("C03", "c03:s_converged", dict(shape=sh, maxiter=mi), name="A/%s/maxiter=%d" % (sid, mi), uf=True,
                                 cover=["runtime-error"] + (["returned"] if mi else []), weight=30, max_paths=8000))
+    hole = S(N("S", "Source", only=()), N("X", "PLoad", "S", only=()), N("L", "PLoad", "S", only=()))
+    hole2 = S(N("S", "Source"), N("C", "Converter", "S", only=()), N("X", "RLoss", "S", only=()), N("XL", "ILoad", "X", only=()), N("L", "ILoad", "C", only=()))
+    for sid, sh, dl in (("hole-after-delete", hole, ["X"]), ("hole-after-subtree-delete", hole2, ["X"])):
+        for mi in (1, 2):
+            out.append(Instance("C03", "c03:s_converged", dict(shape=sh, maxiter=mi, delete=dl), name="A/%s/maxiter=%d" % (sid, mi), uf=True,
+                                cover=["runtime-error", "returned"], weight=30, max_paths=8000))
     c_shapes = {
         "src-rs-iload": S(N("S", "Source"), N("L", "ILoad", "S", only=())),
         "switch-iload": S(N("S", "Source", only=()), N("W", "PSwitch", "S", only=("rs",)), N("L", "ILoad", "W", only=())),
